@@ -163,7 +163,9 @@ pub fn gen_bld_history(r: &mut Rng, max_len: u64) -> Vec<Frame> {
             8 => mk(ne, true, false, true, 0, addr, dl, r),                                       // single-frame packet
             9 => mk(ne, false, false, false, count, addr, dl, r),                                 // not multi
             10 => mk(ne, false, true, true, count, addr, dl, r),                                  // last-kinded continuation
-            11 => mk(ne, false, true, false, r.below(4096) as u16, addr, dl, r),
+            11 => if r.coin() { mk(ne, false, true, false, r.below(4096) as u16, addr, dl, r) }
+                  // two deviations that could cancel out in a combined key: neighbouring address AND the other error type, with the right next id
+                  else { mk(!ne, false, true, false, count, if r.coin() { addr.wrapping_add(1) } else { addr.wrapping_sub(1) }, dl, r) },
             _ => mk(ne, false, true, false, count, addr, dl, r),                                  // the right next frame
         };
         // track what the reference would accept, to keep later frames interesting
